@@ -246,7 +246,8 @@ CHECKS = {
         level_note=("Trusted: the Go race detector, the report parser in c18_test.go. Reports without two library stacks are counted, not judged. Shutdown racing with live traffic is C16's concern, not asserted here."),
         rule=("rapid-generated workloads; non-trivial = at least three of {teardown during fan-out, retained update concurrent with subscriptions, in-process subscribe, concurrent Client.Connect} occurred; distinct = FNV-64 of the workload JSON"),
         assumptions=["one live connection per client identifier", "the library's process-global provider registries are touched by the harness only under its own mutex"],
-        units=[dict(name="race", test="TestC18Race", checks=(200, 25000), shards=(4, 14), timeout=(300, 3000), race_log=True, shrinktime="5s")]),
+        units=[dict(name="race", test="TestC18Race", checks=(200, 25000), shards=(4, 14), timeout=(300, 3000), race_log=True, shrinktime="5s"),
+               dict(name="reconnect-overlap", test="TestC18Overlap", checks=(60, 6000), shards=(2, 14), timeout=(300, 3000), race_log=True, shrinktime="1s")]),
 
     "C19": dict(
         pkg="p_broker", level="fault_enumeration",
